@@ -5,7 +5,9 @@ RULE = ("TBSCertificates from crypto/x509.CreateCertificate (seeded random templ
         "ECDSA/RSA/Ed25519 issuer and subject keys, PrintableString/UTF8String/IA5String names, names beyond 127 bytes), re-assembled by an "
         "independent DER splicer with the poison / SCT-list extension at every position (plus: no other extension, unique ids, no version, "
         "shuffled order); pre-issuer chains with all four AKI present/absent combinations; absent / twice; ~230 hand-made non-canonical or "
-        "malformed variants per base and 60 random single-byte damages; SCT lists (random, boundary 65335/65336/65535, malformed). "
+        "malformed variants per base and 60 random one/two-byte damages; seeded fuzzers for validity time strings, base-128 arcs and raw tag/length headers; "
+        "a sweep of one filler extension's size across the 127/128, 255/256 and 65535/65536 length boundaries; the concrete TBSCertificates of the Lean examples; "
+        "SCT lists (random, boundary 65335/65336/65535, RFC-valid lists embedded by hand, malformed). "
         "non-trivial = distinct op lines whose answer is `ok …` or `1` (the success path), counted by the orchestrator")
 TRUSTED = ["Go's time.Parse/Format calendar arithmetic inside asn1 (mirrored by clockOk/zoneOk, compared on every generated time)",
            "asn1.ObjectIdentifier.Equal on parsed arcs = equality of canonical contents octets",
